@@ -236,6 +236,8 @@ package checkers
 //@   call newErrorHandler requires @legacy-flag-means-all arg0 == ite(unbox(info.Params["failOn"].Value, "string") == "" && unbox(info.Params["failOnError"].Value, "bool"), "all", unbox(info.Params["failOn"].Value, "string"))
 //@   loop 1 body @disable-entry-recorded ite(hasPrefix(trimSpace(splitAt(unbox(info.Params["disable"].Value, "string"), ",", $i)), "#"), disabledTags[substr(trimSpace(splitAt(unbox(info.Params["disable"].Value, "string"), ",", $i)), 1, len(trimSpace(splitAt(unbox(info.Params["disable"].Value, "string"), ",", $i))))], disabledGroups[trimSpace(splitAt(unbox(info.Params["disable"].Value, "string"), ",", $i))])
 //@   loop 3 body @pattern-without-match-is-fatal len(filenames) != 0
+//@   loop 4 body @load-failure-of-a-listed-class-is-fatal forall r int :: (old(emitted(loadresult)) <= r && r < emitted(loadresult) && !isNilIface(emittedArg(loadresult, 0, r, "error"))) ==> !failsOn(deref(h), emittedArg(loadresult, 0, r, "error"))
+//@   loop 4 body @read-failure-of-a-listed-class-is-fatal forall r int :: (old(emitted(readresult)) <= r && r < emitted(readresult) && !isNilIface(emittedArg(readresult, 0, r, "error"))) ==> !failsOn(deref(h), emittedArg(readresult, 0, r, "error"))
 //@   loop 3 invariant @counted-files-were-loaded loaded >= 0 && (loaded > 0 ==> $anyLoaded(engine))
 //@   loop 4 invariant @counted-files-were-loaded loaded >= 0 && (loaded > 0 ==> $anyLoaded(engine))
 //@   ensures @engine-installed-only-if-a-file-loaded (result1 == nil && result0 != nil && result0.engine != nil) ==> $anyLoaded(result0.engine)
